@@ -236,18 +236,22 @@ theorem C08_dir (env : Env) (v : PyVal) : eval env .dir v = .ok ↔ Spec.means e
 theorem C08_appendOnly (env : Env) (v : PyVal) : eval env .appendOnly v = .ok ↔ Spec.means env .appendOnly v := by
   cases v <;> simp [eval, evalAppendOnly, Spec.means, Spec.kindOf, isList]
 
-/-- guard of the RANGE theorem: no NaN bound; the value does not denote NaN — known finding F19; the clause
-disappears as soon as the source tests for NaN (`Gen.rangeNanRejected`, regenerated on every run) —; and an int value is
-exactly representable as a binary64 (the code compares `float(value)`; beyond 2^53 rounding may move the value across
-a bound, and beyond 2^1024 `float()` raises OverflowError — known finding F36). -/
+/-- the source tests the converted value for NaN (F19 is fixed; regenerated from the source on every run) -/
+theorem gen_rangeNanRejected : Gen.rangeNanRejected = true := by decide
+
+/-- guard of the RANGE theorem: the bounds are numbers (a NaN bound cannot be written in a chain text: `parse` refuses
+it; it can only be passed to the constructor directly), and an int value is exactly representable as a binary64 (the code
+compares `float(value)`; beyond 2^53 rounding may move the value across a bound, and beyond 2^1024 `float()` raises
+OverflowError — known finding F36). -/
 def RangeGuard (lo hi : FVal) (v : PyVal) : Prop :=
-  lo ≠ .nan ∧ hi ≠ .nan ∧ (Gen.rangeNanRejected = false → Spec.numberOf v ≠ some .nan) ∧
-    ∀ i, v = .int i → floatOfInt i = some (FVal.ofInt i)
+  lo ≠ .nan ∧ hi ≠ .nan ∧ ∀ i, v = .int i → floatOfInt i = some (FVal.ofInt i)
 
 /-- **C08_range_partial.** RANGE: a number (int, float, numeral text — never a bool) within the inclusive bounds. -/
 theorem C08_range_partial (env : Env) (lo hi : FVal) (v : PyVal) (hg : RangeGuard lo hi v) :
     eval env (.range lo hi) v = .ok ↔ Spec.means env (.range lo hi) v := by
-  obtain ⟨hlo, hhi, hnan, hint⟩ := hg
+  obtain ⟨hlo, hhi, hint⟩ := hg
+  have hflag : ∀ x : FVal, Gen.rangeNanRejected = false → x ≠ .nan := by
+    intro x hf; rw [gen_rangeNanRejected] at hf; cases hf
   simp only [eval, evalRange, Spec.means, Spec.RangeAccepts]
   cases v with
   | null => simp [isBool, toFloat, Spec.numberOf]
@@ -255,24 +259,41 @@ theorem C08_range_partial (env : Env) (lo hi : FVal) (v : PyVal) (hg : RangeGuar
   | list xs => simp [isBool, toFloat, Spec.numberOf]
   | zone c t f => simp [isBool, toFloat, Spec.numberOf]
   | int i =>
-    have hx : Gen.rangeNanRejected = false → FVal.ofInt i ≠ .nan := by intro _; simp [FVal.ofInt]
     simp only [isBool, toFloat, hint i rfl, Spec.numberOf, Bool.false_eq_true, ↓reduceIte]
-    rw [← range_cond_iff Gen.rangeNanRejected hlo hhi hx]
+    rw [← range_cond_iff Gen.rangeNanRejected hlo hhi (hflag _)]
     cases (Gen.rangeNanRejected && (FVal.ofInt i).isNan) || (FVal.ofInt i).lt lo || (FVal.ofInt i).gt hi <;> simp
   | float r x =>
-    have hx : Gen.rangeNanRejected = false → x ≠ .nan := by intro hf h; apply hnan hf; simp [Spec.numberOf, h]
     simp only [isBool, toFloat, Spec.numberOf, Bool.false_eq_true, ↓reduceIte]
-    rw [← range_cond_iff Gen.rangeNanRejected hlo hhi hx]
+    rw [← range_cond_iff Gen.rangeNanRejected hlo hhi (hflag _)]
     cases (Gen.rangeNanRejected && x.isNan) || x.lt lo || x.gt hi <;> simp
   | str s =>
     simp only [isBool, toFloat, Spec.numberOf, Bool.false_eq_true, ↓reduceIte]
     cases hs : pyFloatOfStr s with
     | none => simp
     | some x =>
-      have hx : Gen.rangeNanRejected = false → x ≠ .nan := by intro hf h; apply hnan hf; simp [Spec.numberOf, hs, h]
       simp only
-      rw [← range_cond_iff Gen.rangeNanRejected hlo hhi hx]
+      rw [← range_cond_iff Gen.rangeNanRejected hlo hhi (hflag _)]
       cases (Gen.rangeNanRejected && x.isNan) || x.lt lo || x.gt hi <;> simp
+
+/-- RANGE rejects every value that denotes NaN — a float nan, or a text such as "nan" — whatever the bounds (F19, fixed) -/
+theorem C08_range_rejects_nan (env : Env) (lo hi : FVal) (v : PyVal) (hv : Spec.numberOf v = some .nan) :
+    eval env (.range lo hi) v = .fail "E011" := by
+  simp only [eval, evalRange]
+  cases v with
+  | null => simp [Spec.numberOf] at hv
+  | bool b => simp [Spec.numberOf] at hv
+  | list xs => simp [Spec.numberOf] at hv
+  | zone c t f => simp [Spec.numberOf] at hv
+  | int i => simp [Spec.numberOf, FVal.ofInt] at hv
+  | float r x =>
+    simp only [Spec.numberOf, Option.some.injEq] at hv
+    subst hv
+    simp [isBool, toFloat, gen_rangeNanRejected, FVal.isNan]
+  | str s =>
+    simp only [Spec.numberOf] at hv
+    simp [isBool, toFloat, hv, gen_rangeNanRejected, FVal.isNan]
+
+example : Spec.numberOf (.str "-NaN".toList) = some .nan := by decide
 
 /-- RANGE rejects booleans -/
 theorem C08_range_bool (env : Env) (lo hi : FVal) (b : Bool) : eval env (.range lo hi) (.bool b) = .fail "E011" := by
@@ -280,13 +301,11 @@ theorem C08_range_bool (env : Env) (lo hi : FVal) (b : Bool) : eval env (.range 
 
 def r15 : Constraint := .range (FVal.ofInt 1) (FVal.ofInt 5)
 example : RangeGuard (FVal.ofInt 1) (FVal.ofInt 5) (.int 5) := by
-  refine ⟨by decide, by decide, fun _ => by decide, ?_⟩; intro i h; cases h; decide
+  refine ⟨by decide, by decide, ?_⟩; intro i h; cases h; decide
 example : eval env0 r15 (.int 1) = .ok ∧ eval env0 r15 (.int 5) = .ok ∧ eval env0 r15 (.int 0) = .fail "E011"
     ∧ eval env0 r15 (.int 6) = .fail "E011" ∧ eval env0 r15 (.str "5".toList) = .ok ∧ eval env0 r15 (.str "5.5".toList) = .fail "E011"
     ∧ eval env0 r15 (.bool true) = .fail "E011" := by decide
-/-- known finding F19, on the witness: the text "nan" denotes no number in [1,5], yet `evaluate` accepts it -/
-theorem C08_F19_witness : ¬ Spec.means env0 r15 (.str "nan".toList) ∧
-    (Gen.rangeNanRejected = false → eval env0 r15 (.str "nan".toList) = .ok) := by decide
+example : eval env0 r15 (.str "nan".toList) = .fail "E011" ∧ eval env0 r15 (.float "nan".toList .nan) = .fail "E011" := by decide
 /-- an int just above the largest binary64 (≈ 1.797·10^308) -/
 def hugeInt : Int := 179769313486231590772930519078902473361797697894230657273430081157732675805500963132708477322407536021120113879871393357658789768814416622492847430639474124377767893657175190231543223505632124129903584712028869632318800665427140160825523506532149958333981173696152128117405589926445134109200300003000030000300003000030000
 /-- known finding F36, on a witness: an int beyond the binary64 range makes `evaluate` raise -/
@@ -441,7 +460,7 @@ example : chainValid env0 [.req, .enum enum3, r15, .maxLength 6] (.str "D".toLis
   rcases hc with rfl | rfl | rfl | rfl
   · trivial
   · trivial
-  · exact ⟨by decide, by decide, fun _ => by decide, by intro i h; cases h⟩
+  · exact ⟨by decide, by decide, by intro i h; cases h⟩
   · trivial
 
 /-! ## Document level (`Validator._validate_section`, `_validate_unknown_fields`)
